@@ -51,6 +51,11 @@ type Program struct {
 	Messages []Message `json:"messages"`
 	// MoreFiles are further files to generate in the same invocation (same proto and Go package).
 	MoreFiles []ExtraFile `json:"more_files,omitempty"`
+	// Unbuildable lists messages of the program that the converter simulator asks the plugin to generate
+	// IN FRONT OF the configured types although they cannot be mapped (a map with an integer key): the plugin
+	// leaves them out, and whatever it kept from the attempt must not leak into the types that follow. They
+	// are not roots of the harness.
+	Unbuildable []string `json:"unbuildable,omitempty"`
 	// Foreign are dependency files in OTHER proto / Go packages whose messages the program references
 	// (Field.Ref = "<proto package>.<Message>"). Generator simulator only: nothing here is compiled, and
 	// the oracle view does not descend into them.
